@@ -422,10 +422,10 @@ theorem trackInv_track {s : Sched} (h : TrackInv s) : TrackInv s.track := by
     by_cases hu : s.unfinishedUser u = true
     · simp only [hu, if_true]
     · by_cases hf : s.finishedUser u = true
-      · simp only [hu, hf, if_true, if_false]; rfl
+      · simp only [hu, hf, if_true]
       · have : s.hasXfer u = false := by
           rw [hasXfer_split]; simp [hu, hf]
-        simp only [hu, hf, if_false]
+        simp only [hu, hf]
         rw [← h.same u]
         exact h.idle u this
   · intro u hx
@@ -444,14 +444,14 @@ theorem trackInv_of_xs {s s' : Sched} (h : TrackInv s) (hs : s'.store = s.store)
   ⟨fun u => by rw [hs, hr]; exact h.same u, fun u hu => by rw [hs]; exact h.idle u (hx u hu)⟩
 
 theorem trackInv_start {s : Sched} (h : TrackInv s) : TrackInv s.start := by
-  apply trackInv_of_xs h rfl rfl
+  apply trackInv_of_xs (s' := s.start) h rfl rfl
   intro u hu
   unfold Sched.hasXfer at hu ⊢
   rw [start_xs, any_user_map _ (fun x => by unfold cycleMap; split <;> rfl)] at hu
   exact hu
 
 theorem trackInv_setSt {s : Sched} (h : TrackInv s) (k : Nat) (st : St) : TrackInv (s.setSt k st) := by
-  apply trackInv_of_xs h rfl rfl
+  apply trackInv_of_xs (s' := s.setSt k st) h rfl rfl
   intro u hu
   unfold Sched.hasXfer at hu ⊢
   rw [setSt_xs, any_user_map _ (fun x => by split <;> rfl)] at hu
@@ -459,7 +459,7 @@ theorem trackInv_setSt {s : Sched} (h : TrackInv s) (k : Nat) (st : St) : TrackI
 
 theorem trackInv_append {s : Sched} (h : TrackInv s) (x : Xfer) (p : Bool) :
     TrackInv { s with xs := s.xs ++ [x], cyclePending := p } := by
-  apply trackInv_of_xs h rfl rfl
+  apply trackInv_of_xs (s' := { s with xs := s.xs ++ [x], cyclePending := p }) h rfl rfl
   intro u hu
   unfold Sched.hasXfer at hu ⊢
   simp only [any_append, Bool.or_eq_false_iff] at hu
